@@ -658,7 +658,7 @@ def _handle_refuted(contract, case, cid, S, p, pi, hyps, goal, v, oname, full, r
             continue
         failed = [n for n, ok in r if not ok]
         att = {"input": label, "failed_obligations": failed}
-        if oname in failed or (failed and label.startswith("counter-model")):
+        if failed:  # any obligation of this contract failing on the real code is a failing input for the property
             viol["reproduced"] = True
             viol["env"] = env
             viol["native"] = detail
